@@ -119,7 +119,7 @@ func runMock(c MCase) (msg string, nontrivial bool) {
 			Result *struct{ Model, Collection json.RawMessage }
 		}
 		if len(resp) != 1 || json.Unmarshal(resp[0], &p) != nil || p.Result == nil {
-			return "", fmt.Errorf("get %s: %q", rid, resp)
+			return "", svc.Behaviour(fmt.Sprintf("a get of %s is answered with %q", rid, resp))
 		}
 		if c.Model {
 			return canon(p.Result.Model), nil
@@ -181,7 +181,7 @@ func runMock(c MCase) (msg string, nontrivial bool) {
 	for _, rid := range c.Held {
 		v, err := get(rid)
 		if err != nil {
-			return "VERIF-INCONCLUSIVE: " + err.Error(), false
+			return svc.Verdict(err), false
 		}
 		cache[rid] = v
 	}
@@ -206,7 +206,7 @@ func runMock(c MCase) (msg string, nontrivial bool) {
 			}
 			fresh, err := get(rid)
 			if err != nil {
-				return "VERIF-INCONCLUSIVE: " + err.Error(), nontrivial
+				return svc.Verdict(err), nontrivial
 			}
 			for _, e := range log {
 				if e.Kind != "pub" {
